@@ -115,6 +115,7 @@ impl Ctx {
             for c in &self.corr { writeln!(f, "{}", c.req)?; }
         }
         let mut disagreements = vec![];
+        let mut ext_skipped = 0u64;
         let mut driver_error: Option<String> = None;
         if !self.corr.is_empty() {
             let out = std::process::Command::new(drv)
@@ -131,6 +132,7 @@ impl Ctx {
                     for (c, m) in self.corr.iter().zip(lines.iter()) {
                         let a = crate::codec::canon_line(&c.impl_reply);
                         let b = crate::codec::canon_line(m);
+                        if b == "ext" { ext_skipped += 1; continue; }
                         if a != b {
                             if self.verbose { eprintln!("DISAGREE\n req   {}\n impl  {}\n model {}", c.req, a, b); }
                             if disagreements.len() < 50 {
@@ -149,7 +151,7 @@ impl Ctx {
             "evaluations": self.evaluations, "distinct_nontrivial": self.nontrivial.len(),
             "rule": self.rule, "samples": self.samples, "counters": self.counters,
             "corr_requests": self.corr.len(), "disagreements": disagreements,
-            "driver_error": driver_error, "oracle_failures": self.oracle_failures,
+            "driver_error": driver_error, "model_ext_skipped": ext_skipped, "oracle_failures": self.oracle_failures,
             "known_witness": self.known_witness, "notes": self.notes, "extra": self.extra,
         });
         std::fs::write(format!("{}/result.json", outdir), serde_json::to_string_pretty(&res)?)?;
